@@ -561,6 +561,17 @@ def _port_paths(spec, path=()):
     return out
 
 
+def _sub_paths(spec, path=(), reachable=True):
+    """Paths of all sub-interface members that exist at least once (every enclosing array non-empty), with the member tuple."""
+    out = []
+    for i, (name, flow, m) in enumerate(spec[1]):
+        if m[0] != "port":
+            if reachable:
+                out.append((path + (i,), (name, flow, m)))
+            out.extend(_sub_paths(m[1], path + (i,), reachable and all(d > 0 for d in m[2])))
+    return out
+
+
 def _replace(spec, path, fn):
     """A copy of spec with the member at index path replaced by fn(member) (None removes it)."""
     i = path[0]
@@ -596,7 +607,7 @@ def corruption_obligations(job):
     if not ports:
         return out
     cases = []
-    for kind in ("width", "init", "width-both-inputs", "init-both-inputs", "two-outputs", "missing"):
+    for kind in ("width", "init", "width-both-inputs", "init-both-inputs", "two-outputs", "missing", "dimensions-longer", "dimensions-shorter"):
         path, (name, flow, m) = r.choice(ports)
         shp = m[1]
         if shp[0] not in ("u", "s"):
@@ -628,15 +639,32 @@ def corruption_obligations(job):
                 flow2 = "out" if flow == "in" else "in"
             if kind == "missing":
                 return None
+            if kind == "dimensions-longer":
+                dims = ((dims[0] + 1,) + tuple(dims[1:])) if dims else (1,)
+            if kind == "dimensions-shorter":
+                if not dims or dims[0] == 0:
+                    return "skip"
+                dims = (dims[0] - 1,) + tuple(dims[1:])
             return (name, flow2, ("port", shp2, init2, dims))
         probe = mut((name, flow, m))
         if probe == "skip":
             continue
         cases.append((kind, path, mut))
+    # arrays of sub-interfaces of different lengths (the element count of a member is part of what must match)
+    subs = [(p_, mem) for p_, mem in _sub_paths(spec)]
+    for kind in ("sub-dimensions-longer", "sub-dimensions-shorter"):
+        if not subs:
+            break
+        path, (name, flow, m) = r.choice(subs)
+        dims = tuple(m[2])
+        if kind.endswith("shorter") and (not dims or dims[0] == 0):
+            continue
+        dims2 = (((dims[0] + 1,) + dims[1:]) if dims else (1,)) if kind.endswith("longer") else ((dims[0] - 1,) + dims[1:])
+        cases.append((kind, path, lambda member, dims2=dims2: (member[0], member[1], (member[2][0], member[2][1], dims2))))
     for kind, path, mut in cases:
         base = {"id": f"{job['id']}-corrupt-{kind}", "kind": "ConnectionError on a corrupted tuple (concrete)", "nontrivial": False,
                 "program": job["text"] + f"  with the second interface corrupted: {kind} at member path {list(path)}",
-                "assertion": "connect() raises ConnectionError for a missing member, a width or initial-value mismatch, or two outputs on one leaf"}
+                "assertion": "connect() raises ConnectionError for a missing member, a width or initial-value mismatch, two outputs on one leaf, or members whose array dimensions differ"}
         try:
             with warnings.catch_warnings():
                 warnings.simplefilter("ignore")
